@@ -119,6 +119,13 @@ pub open spec fn forwarded(v: Seq<char>, skipped: Option<String>) -> Seq<char> {
 // R8 outline, ASSUMED (str::contains is generic over the unstable Pattern trait): whether the text contains a question mark
 #[verifier::external_body] pub fn outl_has_qmark(value: &String) -> (r: bool) ensures r == has_qmark(value@) { /* verbatim: value.contains('?') */ value.contains('?') }
 impl Action {
+    // the redirect target on its own (explain / redirect-chain analyses): the same substitution and forwarding as in from_route_rule
+    //@@ fn src/action/mod.rs :: impl Action / fn get_target -> r
+    //@| ensures match route.rule().target { None => r is None,
+    //@|     Some(t) => r matches Some(v) && v@ == forwarded(substituted(t@, vars_of(route.rule(), caps(*route, *request), *request)), request.path_and_query_skipped.skipped_query_params) },
+    //@| closure `|t|` => `|t: &String| -> (v: String) ensures v@ == forwarded(substituted(t@, variables@), request.path_and_query_skipped.skipped_query_params)`
+    //@| outline `value.contains('?')` => `outl_has_qmark(&value)`
+
     //@@ fn src/action/mod.rs :: impl Action / fn from_route_rule -> r
     //@| opt r6i:0
     //@| opt r6i:1
